@@ -22,7 +22,7 @@ func allAPIs(multi, solo int) map[string]int {
 func base(prop string) *Params {
 	return &Params{Prop: prop, Family: prop, Alpha: Alpha{Plain: 6, Framing: 3, Structured: 2}, APIw: allAPIs(3, 1),
 		MinTests: 1, MaxTests: 4, MaxCalls: 4, MaxDepth: 2, SubP: 0.35, CfgP: 0.4, NCfg: 3, UpdateOpt: 0, JSONOpt: 0.2, SharedFileP: 0.5,
-		ManyCallsP: 0.1, RecordCount: []int{1}, Counts: []int{1}, L0P: 0.3}
+		ManyCallsP: 0.1, RecordCount: []int{1}, Counts: []int{1}, L0P: 0.3, ExtraLifeP: 0.2}
 }
 
 // Preset returns the generator parameters of a property family. variant
@@ -66,6 +66,7 @@ func Preset(prop string, adversarial bool, r *scen.Rand) *Params {
 		p.ManyCallsP = 0.3
 		p.MaxTests = 5
 		p.SubP = 0.5
+		p.MaxDepth = 3
 		p.MatcherP = 0.15
 		p.BadMatcherP = 0.6
 		p.InvalidP = 0.08
